@@ -214,5 +214,6 @@ pub fn def() -> PropDef {
             Space { name: "random", decode: decode_random, plan: |t| Plan::Random(t.n(300_000, 6_000_000)) },
         ],
         differential: false,
+        floors: &[],
     }
 }
